@@ -442,6 +442,21 @@ class _FnState(object):
 
     def refine_branch(self, node, env, lab):
         """on the edge where len(v) <= 1 the order of v is void"""
+        # on the edge where isinstance(v, set) holds, v is a set: whatever
+        # walks it walks it in hash order
+        t_ = node.ast.test
+        if lab == 'true' and isinstance(t_, ast.Call) and isinstance(
+                t_.func, ast.Name) and t_.func.id == 'isinstance' \
+                and len(t_.args) == 2 and isinstance(t_.args[0], ast.Name):
+            kinds = t_.args[1].elts if isinstance(
+                t_.args[1], ast.Tuple) else [t_.args[1]]
+            if kinds and all(isinstance(k, ast.Name) and k.id in (
+                    'set', 'frozenset') for k in kinds):
+                nm_ = t_.args[0].id
+                a = env.get(nm_, CLEAN)
+                env = dict(env)
+                env[nm_] = AV('set', a.ord | {('HASH', self._src_key(t_))},
+                              a.val, a.kord)
         small = _small_on_edge(node.ast.test)
         if not small:
             return env
